@@ -464,6 +464,29 @@ def rcfg_config_verbatim(ctx):
 
 
 
+
+def r7_notifications_run_nothing(ctx):
+    """`none for notifications`: the server's RpcService::notification answers with the empty acknowledgement and does not
+    dispatch: it reaches neither RpcService::call nor the method table. Executing the named method `and throwing the
+    result away` is not harmless - a subscription method writes its own response (and later items) straight to the
+    connection, outside any batch array and for a message that must get no reply."""
+    F, R = ctx.F, ctx.R
+    b = F.one(r"^<jsonrpsee_server::middleware::rpc::RpcService as jsonrpsee_core::middleware::RpcServiceT>::notification$")
+    bodies = F.nested(b)
+    bad = []
+    ack = []
+    for x in bodies:
+        R.fn(x)
+        for c in x.calls:
+            nm = c.name() or ""
+            if re.search(r"RpcServiceT>?::(call|batch)$|rpc::RpcService::\w+$|Methods::(method|method_with_name|inner_call)$|MethodCallback", nm) or re.search(r"RpcServiceT::(call|batch)$", c.callee or ""):
+                bad.append(c)
+            if re.search(r"MethodResponse::notification$", nm):
+                ack.append(c)
+    R.check(not bad, "C02.R7", "notification:dispatches-nothing", "RpcService::notification dispatches nothing", "RpcService::notification dispatches the notification (%s): a notification naming a subscription method makes the subscription machinery write a response and items to the connection - a reply to a message that must not be answered, outside any batch array" % sorted({short(c.name()) for c in bad}), where(bad[0]) if bad else "%s:%d" % (b.file, b.lo))
+    R.check(bool(ack), "C02.R7", "notification:empty-ack", "RpcService::notification answers with MethodResponse::notification()", "RpcService::notification no longer answers with the empty acknowledgement", "%s:%d" % (b.file, b.lo))
+
+
 def _borrowed(modname, fname):
     def run(ctx):
         import importlib
@@ -479,7 +502,7 @@ def _borrowed(modname, fname):
 BORROWED = [_borrowed("c01", "r3_ws_reply_once"), _borrowed("c19", "r6_proxy_rewrites_only_what_it_proxies")]
 
 
-RULES = [r1_gate_before_work, r2_classifier_agreement, r3_append_discipline, r4_nothing_outside_array, r5_append_writes_every_entry, r6_batch_container_is_inert, rcfg_config_verbatim] + BORROWED
+RULES = [r1_gate_before_work, r2_classifier_agreement, r3_append_discipline, r4_nothing_outside_array, r5_append_writes_every_entry, r6_batch_container_is_inert, r7_notifications_run_nothing, rcfg_config_verbatim] + BORROWED
 
 LEVEL_TEXT = (
     "Structural necessary conditions of batch handling decided from the type-checked program: the gates that must precede "
